@@ -108,6 +108,10 @@ func main() {
 		workerMain(os.Args[2:])
 	case "replay":
 		replayMain(os.Args[2:])
+	case "worldcheck":
+		worldCheckMain(os.Args[2:])
+	case "emitfixtures":
+		emitFixturesMain(os.Args[2:])
 	case "refdigest":
 		refDigestMain(os.Args[2:])
 	default:
